@@ -32,7 +32,7 @@ For EACH change deliver, under {wt}/_seeded/change1/ and {wt}/_seeded/change2/:
   - patch.diff : `git diff` of the change against the worktree HEAD (source files only, not _seeded/). It must apply cleanly with `git apply` at the repository root.
   - demo.py : a small stand-alone Python program (run as `cd <repo root> && JAX_PLATFORMS=cpu /venv/bin/python _seeded/changeN/demo.py`) that exits 0 and prints PASS on the unmodified tree and exits 1 and prints FAIL (with a short explanation) with your change applied. It must begin with `import os, sys; sys.path.insert(0, os.getcwd())` so that `import fedjax` resolves to the tree it is run from, and it must check the property itself on a concrete input/sequence, not the implementation detail you changed.
   - meta.json : {{"property": "{pid}", "summary": "<one sentence: what was changed>", "needs": "<what specific input/sequence/fault is needed for the violation to show>", "files": [...], "tests_run": "<which existing tests you ran and their result before/after>"}}
-Leave the worktree's source files UNMODIFIED at the end (git checkout -- fedjax) so that only _seeded/ is new. Verify each demo both ways yourself (unmodified: PASS; with `git apply _seeded/changeN/patch.diff`: FAIL; then revert).
+Do NOT use `git stash` (the stash is shared by all worktrees of the repository and others work in sibling worktrees at the same time): use `git diff > file`, `git checkout -- fedjax`, `git apply file`. Leave the worktree's source files UNMODIFIED at the end (git checkout -- fedjax) so that only _seeded/ is new. Verify each demo both ways yourself (unmodified: PASS; with `git apply _seeded/changeN/patch.diff`: FAIL; then revert).
 
 {{PRIOR}}Practical notes: Python is /venv/bin/python (3.12, jax 0.11, numpy 2.x, CPU only). `import fedjax` also imports TensorFlow (slow, ~10 s); set JAX_PLATFORMS=cpu. The machine is heavily shared: run only the test files you need, never the whole suite. There is no network. Keep your final answer short: the two summaries and the paths.""")
 prior_txt = ""
